@@ -195,6 +195,7 @@ func c16Run(in V) V {
 
 	var src *c16Src
 	var rd bufiox.Reader
+	var sbr *thrift.BufferReader // the stream reader of this case (recycled in phase A)
 	if reader == 0 {
 		for _, opv := range ops {
 			op := AsList(opv)
@@ -258,6 +259,7 @@ func c16Run(in V) V {
 		src = &c16Src{data: data, final: final, with: AsInt(s[1]) != 0, chunks: chunks}
 		rd = bufiox.NewDefaultReader(src)
 		br := thrift.NewBufferReader(rd)
+		sbr = br
 		// independent sequential parse of the stream for the expected values
 		ref := append([]byte{}, data...)
 		pos, dead := 0, false
@@ -331,6 +333,36 @@ func c16Run(in V) V {
 		rd2 := bufiox.NewDefaultReader(&c16Src{data: junk, final: io.EOF})
 		rd2.Next(len(junk))
 		rd2.Release(nil)
+		// the stream reader object itself goes back to its pool and the next user decodes values of the
+		// same sizes with other content: values returned earlier must not live in memory that a pooled
+		// reader keeps and hands out again
+		if sbr != nil {
+			sbr.Recycle()
+			var j2 []byte
+			cnt := 0
+			for _, r := range results {
+				if r.ok && r.want != nil {
+					j2 = append(j2, byte(len(r.want)>>24), byte(len(r.want)>>16), byte(len(r.want)>>8), byte(len(r.want)))
+					for k := 0; k < len(r.want); k++ {
+						j2 = append(j2, 0xEE)
+					}
+					cnt++
+				}
+			}
+			for round := 0; round < 2; round++ {
+				rd3 := bufiox.NewDefaultReader(&c16Src{data: append([]byte{}, j2...), final: io.EOF})
+				br3 := thrift.NewBufferReader(rd3)
+				for k := 0; k < cnt; k++ {
+					if k%2 == 0 {
+						br3.ReadBinary()
+					} else {
+						br3.ReadString()
+					}
+				}
+				rd3.Release(nil)
+				br3.Recycle()
+			}
+		}
 	}
 	for _, r := range results {
 		if r.ok && r.want != nil && r.cur() == string(r.want) {
